@@ -201,8 +201,8 @@ Definition handle_result (s : st) (o : list out) (r : p2res) : outcome :=
   match r with
   | ROk => SOk (set_conn s (CClosing NO_ERROR ILibrary) (c_error s)) o FLoop
   | RGoAway reason debug i => handle_go_away s o reason debug i
-  | RReset IRemote _ => SOk s o FLoop
-  | RReset IUser _ => SPanic 9                 (* debug_assert_eq!(initiator, Initiator::Library) *)
+  | RReset IRemote _ | RReset IUser _ => SOk s o FLoop     (* initiator != Library: already applied, nothing is sent; the
+                                                              debug_assert_eq!(initiator, Library) behind it cannot fire *)
   | RReset ILibrary None => SOk s (o ++ [OSendReset]) FLoop
   | RReset ILibrary (Some (reason, debug)) => handle_go_away s o reason debug ILibrary
   | RIo empty_eof is_server =>
